@@ -483,7 +483,11 @@ void MDSDRV_Data::add_pitch_node(const char* s, bool extend, std::vector<uint8_t
 		double delta = (target-counter)/length;
 		uint16_t env_len = (length > 255) ? 255 : length;
 		int16_t env_initial = counter * 256;
-		int16_t env_delta = std::trunc(delta * 256);
+		// the step per frame is a signed 8.8 fixed point value
+		double step = std::trunc(delta * 256);
+		if(!(step >= -32768 && step <= 32767))
+			throw InputError(nullptr, "pitch envelope slide is too steep (the step per frame does not fit 16 bits)");
+		int16_t env_delta = step;
 		env_initial = (env_initial > 0x7eff) ? 0x7eff : env_initial;
 		if(extend)
 		{
